@@ -577,6 +577,11 @@ def check_unpack_function(ctx, fa, oracle, kind, int_type):
             want_m = 2 ** w - 1
             ok = (k == s and m == want_m and off == want_off)
             why = []
+            # the value that is shifted must be the VALUE of the id: .view() re-interprets the bytes (a big-endian FITS column is read byte-swapped)
+            chain = fa.deep(inner) if inner is not None else None
+            if chain is not None and any(isinstance(c_, ast.Call) and call_name(c_) == 'view' for c_ in ast.walk(chain)):
+                ok = False
+                why.append('the id is re-interpreted with .view() instead of converted (astype / copy): non-native byte order is read byte-swapped')
             if k != s:
                 why.append('shift %s, pack shift is %d' % (k, s))
             if m != want_m:
